@@ -367,6 +367,13 @@ def _structural():
                     f"distinct-twprge-lines:{k}"))
         out.append(("; ".join([f"NE/4 of Sec {i + 1}, T154N-R97W" for i in range(k)]),
                     f"desc_STR-entries:{k}"))
+    for k in range(1, 7):
+        # the same wording (same warning, same context) on every line
+        line = "T154N-R97W Sec 14: NE/4, less and except the wellbore"
+        out.append(("\n".join([line] * k), f"rep-warning-lines:{k}"))
+        out.append(("\n".join(f"T15{i}N-R97W Sec 14: NE/4, less and except "
+                              f"the wellbore, from the surface down"
+                              for i in range(k)), f"warning-lines:{k}"))
     for k in (5, 10, 20, 30):
         out.append(("T154N-R97W " + ", ".join(f"Sec {i}: NE/4" for i in range(1, k)), f"sections:{k}"))
         out.append(("T154N-R97W Sec 1: Lots " + ", ".join(str(i) for i in range(1, 2 * k)), f"lots:{k}"))
@@ -387,6 +394,14 @@ def _structural():
                          (': NE/4', 'plain'), (' and', 'dangling-and')):
             out.append((f"T154N-R97W Secs {secs}{tail}", f"seclist:{k}:{tw}"))
             out.append((f"NE/4 of Secs {secs}{tail}", f"seclist-first:{k}:{tw}"))
+        # ... joined by words rather than commas
+        for j in (' and ', ' & ', ' and/or ', ' or ', ' thru ', ' to ', '/',
+                  ' and, ', '; '):
+            jsecs = j.join(str(i) for i in range(1, k + 1))
+            out.append((f"T154N-R97W Secs {jsecs}: NE/4, T155N-R97W Sec 1: ALL",
+                        f"seclist-joined:{j.strip() or j!r}:{k}"))
+            out.append((f"T154N-R97W Sec 1: Lots {jsecs} of Sec 5, T155N-R97W",
+                        f"lotlist-joined:{j.strip() or j!r}:{k}"))
         # ... each item with its own keyword ('Sec. 1, Sec. 2, ...'; 'Lot 1,
         # Lot 2, ...')
         for word in ('Sec.', 'Sect.', 'Section', 'Secs', '§'):
